@@ -63,7 +63,20 @@ def cut(payload, cuts):
 
 
 def send_one(d, proto, factory, m, payload):
-    """send one message through the API named in m['api'] (documented call order only)"""
+    """send one message through the API named in m['api'] (documented call order only); an exception out of a send API used in its
+    documented order on an open connection is a failure of the library, not of the harness"""
+    from harness.core import via_autobahn, exc_key
+    try:
+        _send_one(d, proto, factory, m, payload)
+    except (Violation, HarnessError):
+        raise
+    except Exception as e:
+        if via_autobahn(e):
+            raise Violation("C01|send-api-raised|%s|%s" % (m["api"], exc_key(e)), "%s: %r (len=%d)" % (m["api"], e, len(payload)), None)
+        raise
+
+
+def _send_one(d, proto, factory, m, payload):
     api = m["api"]
     if api == "msg":
         d.call(proto.sendMessage, payload, m["bin"], m.get("frag") or None, bool(m.get("sync")), bool(m.get("dnc")))
@@ -174,6 +187,9 @@ class PairRun:
             sched = list(case.get("schedule", ()))
             for k, (o, m) in enumerate(seq):
                 p = payload_of(m)
+                if self.sides[o].proto.state != 3:     # not OPEN any more although only valid traffic was exchanged
+                    raise Violation("C01|connection-ended-during-valid-traffic", "before message %d: %s side in state %r; client log %r server log %r" % (
+                        k, "client" if o == 0 else "server", self.sides[o].proto.state, [e for e in self.c.log if e[0] == "close"], [e for e in self.s.log if e[0] == "close"]), case)
                 send_one(d, self.sides[o].proto, self.sides[o].factory, m, p)
                 self.sent[o].append((m["bin"], p))
                 if self.mode == "drawn" and sched and (case.get("seed", 0) >> (k % 16)) & 1:
